@@ -16,7 +16,10 @@ func init() {
 			"means the delta or the base ended inside an instruction and must not be reported as success; (delta-guard-agreement) each applier consults invalidSize for both instruction kinds and invalidOffsetSize for copies, " +
 			"rejects the zero command with ErrDeltaCmd, checks the declared source size, and rejects trailing bytes after the instruction loop; the guard sets of the three appliers are equal. " +
 			"(base-size-known) patchDeltaWriter compares the declared source size with the base only behind a *bytes.Reader type assertion, so every base handed to it is statically a *bytes.Reader (argument type, or all returns of the producing function). " +
-			"Not decided: DiffDelta∘PatchDelta = identity; equality with git's patch_delta on all streams.",
+			"(copy-flag-bits-agree) the set of command bits encodeCopyOperation can set — evaluated over its counting loops with constant bounds — equals the set of bits the four offset/size decoders consult, and the slice and ByteReader decoders consult the same bits, " +
+			"so no offset or size byte is dropped from every encoded instruction (offsets >= 2^24) or read by one applier and not the other; (cursor-follows-reader) a position counter fed by a buffered reader's Discard is re-initialised whenever that reader is Reset, before it is read again " +
+			"(found and fixed: ReaderFromDelta kept the old position after re-opening the base for a backwards copy and then streamed the wrong region). " +
+			"Not decided: DiffDelta∘PatchDelta = identity beyond the flag-bit condition; equality with git's patch_delta on all streams.",
 		Assumptions: []string{"invalidSize/invalidOffsetSize compute what their names say"},
 		Run:         runC06,
 	})
